@@ -45,7 +45,90 @@ fn cval(v: &Value) -> Option<String> {
     })
 }
 
+thread_local! {
+    /// set when an expression outside the modelled core was printed as `EOpaque`
+    static OPAQUE_SEEN: std::cell::Cell<bool> = const { std::cell::Cell::new(false) };
+}
+
+/// The variables an expression mentions — the harness's own walk (independent of
+/// `Optimizer::collect_variables`); subqueries have their own scope.
+fn expr_var_list(e: &LogicalExpression, out: &mut Vec<String>) {
+    use LogicalExpression as E;
+    let mut add = |v: &String, out: &mut Vec<String>| {
+        if !out.contains(v) {
+            out.push(v.clone());
+        }
+    };
+    match e {
+        E::Literal(_) | E::Parameter(_) => {}
+        E::Variable(v) => add(v, out),
+        E::Property { variable, .. } => add(variable, out),
+        E::Binary { left, right, .. } => {
+            expr_var_list(left, out);
+            expr_var_list(right, out);
+        }
+        E::Unary { operand, .. } => expr_var_list(operand, out),
+        E::FunctionCall { args, .. } => args.iter().for_each(|a| expr_var_list(a, out)),
+        E::List(items) => items.iter().for_each(|a| expr_var_list(a, out)),
+        E::Map(pairs) => pairs.iter().for_each(|(_, a)| expr_var_list(a, out)),
+        E::IndexAccess { base, index } => {
+            expr_var_list(base, out);
+            expr_var_list(index, out);
+        }
+        E::SliceAccess { base, start, end } => {
+            expr_var_list(base, out);
+            if let Some(s) = start {
+                expr_var_list(s, out);
+            }
+            if let Some(x) = end {
+                expr_var_list(x, out);
+            }
+        }
+        E::Case { operand, when_clauses, else_clause } => {
+            if let Some(o) = operand {
+                expr_var_list(o, out);
+            }
+            for (c, r) in when_clauses {
+                expr_var_list(c, out);
+                expr_var_list(r, out);
+            }
+            if let Some(x) = else_clause {
+                expr_var_list(x, out);
+            }
+        }
+        E::Labels(v) | E::Type(v) | E::Id(v) => add(v, out),
+        E::ListComprehension { list_expr, filter_expr, map_expr, .. } => {
+            expr_var_list(list_expr, out);
+            if let Some(f) = filter_expr {
+                expr_var_list(f, out);
+            }
+            expr_var_list(map_expr, out);
+        }
+        E::ExistsSubquery(_) | E::CountSubquery(_) => {}
+    }
+}
+
+/// An expression of the modelled core, or `EOpaque tag vars` for anything else (the rewrites only
+/// look at the variables; rows of such a case are not compared with the semantics).
 fn cexpr(e: &LogicalExpression) -> Option<String> {
+    if let Some(s) = cexpr_core(e) {
+        return Some(s);
+    }
+    let text = format!("{:?}", e);
+    let mut h: u64 = 0xcbf29ce484222325;
+    for b in text.bytes() {
+        h = (h ^ b as u64).wrapping_mul(0x100000001b3);
+    }
+    let mut vars = vec![];
+    expr_var_list(e, &mut vars);
+    if vars.iter().any(|v| v.contains('"') || v.contains('\\')) {
+        return None;
+    }
+    OPAQUE_SEEN.with(|c| c.set(true));
+    Some(format!("(EOpaque {} {})", cs(&format!("x{:016x}", h)), coq::list(vars.iter().map(|v| cs(v)))))
+}
+
+fn cexpr_core(e: &LogicalExpression) -> Option<String> {
     Some(match e {
         LogicalExpression::Literal(v) => format!("(ELit {})", cval(v)?),
         LogicalExpression::Variable(x) => format!("(EVar {})", cs(x)),
@@ -445,7 +528,13 @@ fn switches(base: Optimizer, m: u32) -> Optimizer {
 
 /// The whole treatment of one (graph, logical plan): dumps, correspondence terms, oracle.
 fn treat(out: &mut Out, fx: &mut Fixture, kind: &str, text: &str, plan: &LogicalPlan, ordered: bool, sem_ok: bool, mut tags: Vec<String>) {
+    OPAQUE_SEEN.with(|c| c.set(false));
     let before = cplan(&plan.root);
+    let opaque = OPAQUE_SEEN.with(|c| c.get());
+    if opaque {
+        tags.push("opaque-expr".into());
+    }
+    let sem_ok = sem_ok && !opaque;
     // (c) oracle: 8 switch combinations x {fresh, stale, absent} statistics
     let mut afters: Vec<(u32, Option<String>)> = vec![];
     let mut reference: Option<(String, Outcome)> = None;
@@ -726,11 +815,11 @@ impl<'a> QGen<'a> {
                 format!("{}.s = '{}'", x, self.r.pick(&["x", "y"]))
             }
             12 => {
-                // expressions outside the modelled core (function calls, CASE): such a case is checked by
-                // the 24-run oracle only; they exercise the other arms of collect_variables
+                // expressions outside the modelled core (function calls, CASE): dumped as EOpaque (tag +
+                // variables); plan correspondence and oracle, no row comparison with the semantics
                 let x = pick_node(self);
                 let y = pick_node(self);
-                self.tags.push("atom-unmodelled".into());
+                self.tags.push("atom-opaque".into());
                 match self.r.below(4) {
                     0 => format!("coalesce({}.w, 0) {} {}", x, self.cmp(), self.r.range(0, 2)),
                     1 => format!("toString({}.v) = '{}'", x, self.r.range(0, 3)),
